@@ -60,3 +60,9 @@ func init() {
 		"E2 progress stage: fault prefix on real NodeHosts, then a fault-free period; verdicts on logical time only (ticks processed per replica via the NodeTick hook, tick based request deadlines); wall clocks are watchdogs whose firing is inconclusive",
 	}, Stage{Engine: "clusterrun", Mode: "progress", BatchesQ: 8, BatchesT: 16, Par: 8, TimeoutQ: 900, TimeoutT: 5400})
 }
+
+func init() {
+	addStages("C16", "fault_enumeration", []string{
+		"E2 importer stage (node level, 'imported' and 'shrunk' clauses): after an import the repaired hosts lose power at their first SaveRaftState, right after the first start, and after a second restart; they must restart and still hold the exported state (an on-disk state machine's imported snapshot is shrunk once recovered: its data must have been synced first)",
+	}, Stage{Engine: "clusterrun", Mode: "importer", BatchesQ: 12, BatchesT: 16, Par: 12, TimeoutQ: 900, TimeoutT: 3600})
+}
